@@ -99,7 +99,7 @@ Definition c03m_pred (maxd : nat) (h : list mop_i) (q : lquery) (r : lanswer) : 
       else match spec_start f ns a with
            | None => Some (negb v)
            | Some s =>
-             if mreach_within f ns l (maxd - 1) s b then Some v
+             if Nat.ltb 0 maxd && mreach_within f ns l (maxd - 1) s b then Some v
              else if mreach_within f ns l (length ns) s b then Some true
              else Some (negb v)
            end
